@@ -23,6 +23,8 @@ pub enum TokKind {
     Group { limit: u128 },
     /// AIGER literal
     ALit { assigning: bool, max: u128 },
+    /// AIGER latch reset value: 0, 1 or the latch's own literal `own`
+    LatchInit { own: u128, max: u128 },
     /// AIGER symbol index (text right after the kind letter)
     SymIdx { limit: u128 },
     /// AIGER symbol name / BTOR2 symbol (free text)
